@@ -39,6 +39,8 @@ ENUMERATED = {
 }
 UNSIGNED_ATS = ["byte_size", "bit_size", "upper_bound", "lower_bound", "count", "data_bit_offset", "alignment", "rank", "start_scope"]
 SIGNED_ATS = ["byte_stride", "bit_stride"]
+# every attribute name that is decoded as a location (also in the block forms of DWARF 2 and 3)
+LOC_ATS = ["location", "frame_base", "data_member_location", "data_location", "return_addr", "segment", "static_link", "use_location", "vtable_elem_location"]
 
 
 class Exp:
@@ -277,7 +279,7 @@ class Builder:
         exprs = [bytes([0x50]), bytes([0x91]) + sleb(-24), bytes([0x03]) + struct.pack("<Q", 0x601040), bytes([0x75, 0x08, 0x9f]), b""]
         for e in exprs:
             f = "exprloc" if self.v >= 4 else "block1"
-            at = self.r.choice(["location", "frame_base", "data_member_location"])
+            at = self.r.choice(LOC_ATS)
             self.add(Die(TAG["variable"], [Attr(AT[at], FORM[f], e)]), Exp("loc", expr=e), "%s/%s %s" % (at, f, e.hex()), True)
         # random expressions over every operand class (the generator and the expected operands are C17's): here the
         # operations are read through `elem`, `label` and `value`, signs included
@@ -289,8 +291,9 @@ class Builder:
             if f == "block1" and len(e) > 255:
                 continue
             want = [[code] + [v if k == "num" else v for k, v in vals] for code, off, vals in expected_values(ops, None)]
-            self.add(Die(TAG["variable"], [Attr(AT["location"], FORM[f], bytes(e))]), Exp("loc-ops", expr=bytes(e), want=want),
-                     "location/%s operations %s" % (f, bytes(e).hex()[:40]), True)
+            at = self.r.choice(LOC_ATS)
+            self.add(Die(TAG["variable"], [Attr(AT[at], FORM[f], bytes(e))]), Exp("loc-ops", expr=bytes(e), want=want),
+                     "%s/%s operations %s" % (at, f, bytes(e).hex()[:40]), True)
 
     def build(self):
         for fn in (self.strings, self.refs, self.flags, self.addresses, self.enumerated, self.lines, self.integrals, self.const_values, self.locations):
